@@ -60,6 +60,9 @@ def run(prog, res):
   _skip_tests(prog, res)
   _group_dims(prog, res)
   _centres(prog, res)
+  from ..rules import spelling as _sp
+  _sp.check_case_agreement(prog, res, ['lattice_lib'])
+  res.floor('V3c', 2)
   res.floor('O3', 1)
   res.floor('L4', 30)
   res.floor('P4', 4)
